@@ -930,7 +930,7 @@ func (o Object) Equals(with Item) bool {
 				result = false
 				return nil
 			}
-			if !w.URL.GetLink().Equals(o.URL.GetLink(), false) {
+			if !ItemsEqual(o.URL, w.URL) {
 				result = false
 				return nil
 			}
